@@ -38,6 +38,11 @@ class Function:
     our_tasks: ClassVar[set[Task]] = set()
 
     #
+    # those of our tasks that have taken their first step (run_coro is running)
+    #
+    started_tasks: ClassVar[set[Task]] = set()
+
+    #
     # Done callbacks for each task
     #
     task2cb: ClassVar[dict[Task, dict]] = {}
@@ -137,6 +142,12 @@ class Function:
                         # take a while), since that would delay all the later cancel requests
                         #
                         if not cmd[1].done():
+                            if cmd[1] in cls.our_tasks and cmd[1] not in cls.started_tasks:
+                                #
+                                # it hasn't had its first step yet: let it get there, so its
+                                # clean-up (done callbacks etc.) is in place when it is canceled
+                                #
+                                await asyncio.sleep(0)
                             cmd[1].cancel()
                             pending.add(cmd[1])
                             cmd[1].add_done_callback(task_done)
@@ -452,6 +463,7 @@ class Function:
         try:
             task = asyncio.current_task()
             cls.our_tasks.add(task)
+            cls.started_tasks.add(task)
             if ast_ctx is not None:
                 cls.task_done_callback_ctx(task, ast_ctx)
             result = await coro
@@ -481,6 +493,7 @@ class Function:
                 cls.task2context.pop(task, None)
                 cls.task2cb.pop(task, None)
                 cls.our_tasks.discard(task)
+                cls.started_tasks.discard(task)
 
     @classmethod
     def create_task(cls, coro, ast_ctx=None):
